@@ -39,6 +39,9 @@ type sourceFragment struct {
 	program            *analysis.ProgramInfo
 	simpleCheckpoint   factstore.FactStoreWithRemove
 	temporalCheckpoint factstore.TemporalFactStore
+	// Predicates that became known with this fragment. The program info also
+	// lists the declarations of earlier fragments, which stay when this one is popped.
+	introduced []ast.PredicateSym
 }
 
 // Interpreter is an interactive interpreter.
@@ -410,7 +413,13 @@ func (i *Interpreter) Preload(units []parse.SourceUnit, store factstore.FactStor
 
 func (i *Interpreter) pushSourceFragment(pathset string, units []parse.SourceUnit, programInfo *analysis.ProgramInfo) {
 	i.src = append(i.src, pathset)
-	i.sourceFragments[pathset] = &sourceFragment{units, programInfo, i.simpleStore, i.temporalStore}
+	var introduced []ast.PredicateSym
+	for _, decl := range programInfo.Decls {
+		if _, known := i.knownPredicates[decl.DeclaredAtom.Predicate]; !known {
+			introduced = append(introduced, decl.DeclaredAtom.Predicate)
+		}
+	}
+	i.sourceFragments[pathset] = &sourceFragment{units, programInfo, i.simpleStore, i.temporalStore, introduced}
 	for _, decl := range programInfo.Decls {
 		i.knownPredicates[decl.DeclaredAtom.Predicate] = *decl
 	}
@@ -451,8 +460,8 @@ func (i *Interpreter) popSourceFragment() *sourceFragment {
 	f := i.sourceFragments[path]
 	i.src = i.src[:l-1]
 	delete(i.sourceFragments, path)
-	for _, decl := range f.program.Decls {
-		delete(i.knownPredicates, decl.DeclaredAtom.Predicate)
+	for _, sym := range f.introduced {
+		delete(i.knownPredicates, sym)
 	}
 	i.simpleStore = f.simpleCheckpoint
 	i.temporalStore = f.temporalCheckpoint
